@@ -817,5 +817,13 @@ def ru_names_bound(ctx: Ctx) -> None:
     names_rule(ctx)
 
 
+def r9_mnemonic_recognition(ctx: Ctx) -> None:
+    """an instruction is only encoded if its mnemonic is recognised wherever it may stand, the last line of the input included (shared with
+    C16.R2)"""
+    from .c16 import mnemonic_followers
+
+    mnemonic_followers(ctx)
+
+
 RULES = [r1_table_subset_of_isa, r2_supported_set_kept, r3_operand_packing, r4_width_selection, r5_shape_to_mode,
-         r6_rejection_discipline, r7_field_plumbing, r8_lexer_token_facts, rb_binding_agreement, rm_no_process_lifetime_results, ru_names_bound]
+         r6_rejection_discipline, r7_field_plumbing, r8_lexer_token_facts, r9_mnemonic_recognition, rb_binding_agreement, rm_no_process_lifetime_results, ru_names_bound]
